@@ -38,18 +38,18 @@ RULE = (
     "part: every (form, frame, parameter, access path) combination"
 )
 BOUNDS = {
-    "quick": "4 roots (StateVector/Orbit x full/bare); histories of length <= 3 with the full alphabet (3 forms x 3 frames, "
-    "3 live objects); 2 full roots: length <= 4 with the core alphabet + centre-failing frame change + infos read; access product over all 10 forms x 2 frames; "
+    "quick": "4 roots (StateVector/Orbit x full/bare); histories of length <= 3 with the full alphabet (22 operation kinds, "
+    "3 forms x 3 frames, 3 live objects; the bare roots without the infos read); 2 full roots: length <= 4 with the core alphabet + centre-failing frame change + infos read; access product over all 10 forms x 2 frames; "
     "12 collision chains (4 epochs / 3 orbits / 3 root forms, both orders, one process each, full alphabet length <= 2); "
     "dynamic frames (user frame, station, orbit-attached frame, Hill): histories of length <= 4 of dumps / loads / "
     "re-register the frame name with another definition / write / metadata / copy / frame assignment",
-    "thorough": "6 roots (also covariance only / maneuvers only): histories of length <= 4 with the full alphabet; 2 full "
-    "roots: histories of length <= 6 (the property's bound) with the core alphabet (2 forms, 2 frames, 2 live objects; "
-    "copy, copy(form), copy(frame), as_orbit/as_statevector, form=, frame=, frame=Hill (fails half-way), write by index, "
-    "append / edit a maneuver, write a covariance cell) and length <= 5 with the core alphabet + centre-failing frame change + "
-    "infos read; access product over all 10 forms x 2 frames; collision chains "
-    "with the full alphabet to length 3; dynamic-frame histories to length 5 (the length-4 search of the four secondary "
-    "roots runs without the infos read)",
+    "thorough": "full alphabet (22 operation kinds, 3 forms x 3 frames, 3 live objects): histories of length <= 4 on the 2 full "
+    "roots, length <= 4 without the infos read on the 2 bare roots, length <= 3 on the covariance-only / maneuvers-only "
+    "roots; 2 full roots: length <= 6 (the property's bound) with the core alphabet (2 forms, 2 frames, 2 live objects; "
+    "copy, copy(form), copy(frame), as_orbit/as_statevector, form=, frame=, frame=Hill, write by index, append / edit a "
+    "maneuver, write a covariance cell) and length <= 5 with the core alphabet + centre-failing frame change + infos "
+    "read; access product over all 10 forms x 2 frames; 12 collision chains (full alphabet length <= 2 and core-plus "
+    "alphabet length <= 3 per root); dynamic-frame histories to length 5",
 }
 ASSUMPTIONS = [
     "forms of the history alphabet: cartesian, keplerian, spherical; frames: EME2000, ITRF, MOD (+ Hill and unknown "
@@ -1369,8 +1369,9 @@ def units(tier, seed):
     if tier == "quick":
         split = 8
         for r in ("sv_full", "orb_full", "sv_bare", "orb_bare"):
+            lvl = "full" if r in ("sv_full", "orb_full") else "full-noinfos"
             for s in range(split):
-                u.append((cfg, dict(part="hist", root=r, depth=3, level="full", first=[s, split])))
+                u.append((cfg, dict(part="hist", root=r, depth=3, level=lvl, first=[s, split])))
         for r in ("sv_full", "orb_full"):
             for s in range(4):
                 u.append((cfg, dict(part="hist", root=r, depth=4, level="core-plus", first=[s, 4])))
@@ -1381,23 +1382,26 @@ def units(tier, seed):
                 u.append((cfg, dict(part="hist", root=r, depth=6, level="core", first=[s, 11])))
             for s in range(13):
                 u.append((cfg, dict(part="hist", root=r, depth=5, level="core-plus", first=[s, 13])))
-        for r in ROOTS:
+        for r in ("sv_full", "orb_full", "sv_bare", "orb_bare"):
             lvl = "full" if r in ("sv_full", "orb_full") else "full-noinfos"
             for s in range(split):
                 u.append((cfg, dict(part="hist", root=r, depth=4, level=lvl, first=[s, split])))
+        for r in ("sv_cov", "orb_mans"):
+            for s in range(4):
+                u.append((cfg, dict(part="hist", root=r, depth=3, level="full", first=[s, 4])))
     # collision chains: roots that differ in exactly one coordinate (epoch / orbit / form of the root), explored one
     # after the other in ONE process, in both orders: anything the library keeps between calls that is keyed without
     # that coordinate makes the later root disagree with its own model
     first = []
-    cdepth = 2 if tier == "quick" else 3
+    clevels = [["full", 2]] if tier == "quick" else [["full", 2], ["core-plus", 3]]
     for base in ("sv_full", "orb_full"):
         for kind, roots in (
             ("epoch", [dict(base=base, epoch=e) for e in EPOCHS]),
             ("orbit", [dict(base=base, orbit=o) for o in ORBITS]),
             ("form", [dict(base=base, form=f) for f in FORMS_FULL]),
         ):
-            first.append((cfg, dict(part="chain", chain=kind, roots=roots, depth=cdepth, level="full")))
-            first.append((cfg, dict(part="chain", chain=kind + "-reversed", roots=roots[::-1], depth=cdepth, level="full")))
+            first.append((cfg, dict(part="chain", chain=kind, roots=roots, levels=clevels)))
+            first.append((cfg, dict(part="chain", chain=kind + "-reversed", roots=roots[::-1], levels=clevels)))
     for kind in DYN_KINDS:
         first.append((cfg, dict(part="dyn", kind=kind, depth=4 if tier == "quick" else 5)))
     # the long units go first so that the pool stays balanced
@@ -1424,7 +1428,8 @@ def run_unit(p, t):
         return
     if p["part"] == "chain":
         for r in p["roots"]:
-            explore(r, p["depth"], p["level"], None, t)
+            for level, depth in p["levels"]:
+                explore(r, depth, level, None, t)
         t.note("collision chains (roots differing in one coordinate, explored in one process)", 1)
         return
     explore(p["root"], p["depth"], p["level"], p["first"], t)
